@@ -158,7 +158,8 @@ var c25Diagrams = []struct{ class, text string }{
 	{"tables-classes-styles", "t: {shape: sql_table; id: int {constraint: primary_key}; name: varchar; org: int {constraint: foreign_key}}\nk: {shape: class; +name: string; -run(x int): error}\nt -> k\np -> t.org: col\nx: {style.3d: true; style.fill: \"linear-gradient(#f69d3c, #3f87a6)\"}\ny: {shape: cylinder; style.fill-pattern: dots; style.shadow: true}\nx -> y: pat {style.font-color: red}\nm: |md # Title\n**bold** and `code` and [link](https://example.com)\n|\nm -> x: {source-arrowhead: {shape: diamond; label: 1}; target-arrowhead: {shape: cf-many; label: n}}"},
 	{"sequence-near-grid", "title: Doc {near: top-center; shape: text; style.font-size: 30}\nseq: {shape: sequence_diagram; alice -> bob: hello; bob -> alice: hi back; alice.s -> bob.s: span; bob.\"note to self\"}\ngrid: {grid-rows: 2; a; b; c: {p -> q}; d}\nseq -> grid: then\ngrid.a -> grid.d\nlegend: {near: bottom-right; k1; k2; k1 -> k2}\ntip: {tooltip: some tip; link: https://example.com; icon: https://icons.terrastruct.com/essentials/004-picture.svg}\ngrid -> tip"},
 	{"code-blocks", "c: |go\npackage main\n\nimport \"fmt\"\n\n// comment\nfunc main() {\n\tx := 42 // answer\n\tfmt.Printf(\"%d <&> %s\\n\", x, \"str\")\n}\n|\np: |python\ndef f(a, b=2):\n    return [a*b for _ in range(3)]  # list\n|\nc -> p: calls"},
-	// minimised witnesses of the dagre container-spacing defects and of the variable-replacement defect
+	// minimised witnesses of the dagre container-spacing defects, and of the markdown variable-replacement
+	// defect that has since been repaired in /repo (regression case: must render identically now)
 	{"witness-rank-spacing-tie-end", "B: {\n  A: {\n    label: \"A0\\nA1\\nA2\\nA3\\nA4\\nA5\\nA6\"\n    label.near: outside-bottom-center\n    style.font-size: 18\n    c: {\n      label: \"c0\\nc1\\nc2\\nc3\\nc4\\nc5\\nc6\\nc7\\nc8\\nc9\\nc10\"\n      label.near: outside-bottom-center\n      style.font-size: 16\n      width: 100\n      height: 66\n    }\n  }\n}\n"},
 	{"witness-rank-spacing-tie-start", "B: {\n  A: {\n    label: \"A0\\nA1\\nA2\\nA3\\nA4\\nA5\\nA6\"\n    label.near: outside-top-center\n    style.font-size: 18\n    c: {\n      label: \"c0\\nc1\\nc2\\nc3\\nc4\\nc5\\nc6\\nc7\\nc8\\nc9\\nc10\"\n      label.near: outside-top-center\n      style.font-size: 16\n      width: 100\n      height: 66\n    }\n  }\n}\n"},
 	{"witness-shift-seen-range", "direction: right\nn4: {\n  n5: {\n    n10: {\n      n12: {\n      }\n    }\n  }\n  n13: {\n    n16: {\n      label.near: outside-top-center\n    }\n  }\n}\nn17: {\n}\nn4.n13.n16 -> n4.n5.n10: \"e\"\nn17 -> n4.n5.n10.n12: \"e\"\n"},
@@ -169,7 +170,6 @@ var c25Diagrams = []struct{ class, text string }{
 const c25KFChroma = "C25-chroma-match-timeout"
 const c25KFTies = "C25-dagre-rank-spacing-ties"
 const c25KFSeen = "C25-dagre-shift-seen-range"
-const c25KFVars = "C25-md-variable-replace-order"
 
 // signatures of the dagre findings, evaluated on every graph handed to d2dagrelayout:
 //
@@ -188,14 +188,8 @@ func c25DagreSig(g *d2graph.Graph) (twoContainers, nested bool) {
 	return n >= 2, nested
 }
 
-// signature of the variable-replacement finding: a quoted or escaped substitution, i.e. a value that
-// keeps the literal text ${…}
-func c25HasLiteralSubstitution(text string) bool {
-	return strings.Contains(text, "'${") || strings.Contains(text, "\\${")
-}
-
-// signature of the known finding: the diagram has a code block (shape: code), i.e. text that d2svg
-// tokenises with chroma for syntax highlighting
+// signature of the known finding C25-chroma-match-timeout: the diagram has a code block (shape: code),
+// i.e. text that d2svg tokenises with chroma for syntax highlighting
 func c25HasCode(text string) bool {
 	g, _, err := d2compiler.Compile("", strings.NewReader(text), nil)
 	if err != nil {
@@ -372,9 +366,6 @@ func c25Gen(r *Rng, tier string, n int) []Case {
 		}
 		if sigTies[i] {
 			kf[i] = append(kf[i], c25KFTies)
-		}
-		if c25HasLiteralSubstitution(j.Text) {
-			kf[i] = append(kf[i], c25KFVars)
 		}
 	}
 
